@@ -1389,6 +1389,14 @@ func remapIndex(ctx context.Context, mp *mhprimary.MultihashPrimary, buckets Buc
 		// If this file was already remapped, skip it.
 		_, err = os.Stat(doneName)
 		if !os.IsNotExist(err) {
+			// The marker is created after the remapped copy is complete, but
+			// before the copy is renamed over the index file. If the copy
+			// is still there, then the rename did not happen, so do it now.
+			if _, err = os.Stat(tmpName); err == nil {
+				if err = os.Rename(tmpName, fileName); err != nil {
+					return nil, fmt.Errorf("error renaming remapped file %s to %s: %w", tmpName, fileName, err)
+				}
+			}
 			log.Infow("index file already remapped", "file", fileName)
 			indexCount += len(bucketPrefixes)
 			continue
